@@ -695,6 +695,8 @@ impl AsyncClient {
             },
         };
 
+        #[cfg(feature = "verif-hooks")]
+        crate::verif::probe_async(&format!("cm_received:{id}")).await;
         let resp = received?;
         pending_guard.disarm();
         Self::validate_response(id, resp)
